@@ -94,3 +94,15 @@ Example C03_ex_mask : mask_compare true false false CEq 3 4 = Some false /\ mask
 Proof. split; [reflexivity|split; reflexivity]. Qed.
 Example C03_ex_opp : opposite_cond false CLt 5 CGt 10 = true /\ opposite_table true CLt CGe = true.
 Proof. split; reflexivity. Qed.
+
+(* the X2 oracle: a truth value that the extracted sweep reports as seen at a condition site was observed at that
+   site in a terminating, UB-free execution of the MiniC program (VF/MiniC.v exec) on some input of the swept product *)
+From CV Require Import VF.MiniC Verdict.Sweep Verdict.SweepProofs.
+Theorem C03_sweep_seen_sound p ptypes doms locals fuel ss site b :
+  seen (t_acc (sweep p ptypes doms locals fuel ss)) site b ->
+  exists args, In args (product doms) /\ observed p ptypes locals fuel ss args site b.
+Proof. exact (sweep_seen_sound p ptypes doms locals fuel ss site b). Qed.
+Print Assumptions C03_sweep_seen_sound.
+Example C03_ex_sweep :
+  seen (t_acc (sweep unix64 [tint] [[0; 5]] [] 100 [SObs 7 (VBin Gt (VVar 0) (VLit tint 3))])) 7 true.
+Proof. exists (mkA 7 1 1 [0] [5] 0 1). cbn. split; [left; reflexivity|split; [reflexivity|reflexivity]]. Qed.
